@@ -820,4 +820,79 @@ pub mod verif_hooks {
                 .collect()
         })
     }
+    /// `normalize_vs` under the shaper record `name` of the crate (its own normalization preference,
+    /// decompose / compose callbacks and `reorder_marks` callback), on a plan whose `has_gpos_mark`
+    /// is `has_gpos_mark`.
+    pub fn normalize_shaper(
+        face: &hb_font_t,
+        name: &str,
+        has_gpos_mark: bool,
+        level: u32,
+        invisible: Option<u16>,
+        not_found_vs: Option<u32>,
+        text: &[(u32, u32, u32)],
+    ) -> Option<Outcome> {
+        let shaper = shaper_by_name(name)?;
+        let mut plan = hb_ot_shape_plan_t::new(
+            face,
+            crate::hb::Direction::LeftToRight,
+            None,
+            None,
+            &[],
+        );
+        plan.shaper = shaper;
+        plan.has_gpos_mark = has_gpos_mark;
+
+        let mut buffer = hb_buffer_t::new();
+        for &(cp, cluster, mask) in text {
+            buffer.info.push(hb_glyph_info_t {
+                glyph_id: cp,
+                mask,
+                cluster,
+                var1: 0,
+                var2: 0,
+            });
+            buffer.pos.push(GlyphPosition::default());
+        }
+        buffer.len = text.len();
+        buffer.cluster_level = level;
+        buffer.invisible = invisible.map(ttf_parser::GlyphId);
+        buffer.not_found_variation_selector = not_found_vs;
+        buffer.enter();
+
+        let mut flags = buffer.scratch_flags;
+        for info in &mut buffer.info {
+            info.init_unicode_props(&mut flags);
+        }
+        buffer.scratch_flags = flags;
+
+        _hb_ot_shape_normalize(&plan, &mut buffer, face);
+
+        let recs = buffer.info[..buffer.len]
+            .iter()
+            .map(|i| Rec {
+                cp: i.glyph_id,
+                mask: i.mask,
+                cluster: i.cluster,
+                gidx: i.var1,
+                props: i.unicode_props(),
+                is_mark: _hb_glyph_info_is_unicode_mark(i),
+                is_space: _hb_glyph_info_is_unicode_space(i),
+            })
+            .collect();
+        Some(Outcome {
+            recs,
+            scratch_flags: buffer.scratch_flags,
+            successful: buffer.successful,
+        })
+    }
+
+    /// (normalization preference as 0..=4 in the order of `SHAPERS`, has a `reorder_marks` callback)
+    pub fn shaper_normalization(name: &str) -> Option<(usize, bool)> {
+        let s = shaper_by_name(name)?;
+        let mode = SHAPERS
+            .iter()
+            .position(|d| d.normalization_preference == s.normalization_preference)?;
+        Some((mode, s.reorder_marks.is_some()))
+    }
 }
